@@ -107,15 +107,23 @@ pub fn run_worker(id: &str, ctx: &Ctx, rep: &mut Report) {
 /// Parent-side driver: default is "shard over workers and merge"; engines with several phases override.
 pub fn run_parent(id: &str, tier: Tier, seed: u64) -> Report {
     let p = plan(id, tier);
+    // workers run with hash seeds owned by the shim (derived from the run's seed): the iteration order of the real
+    // code's hash maps inside the harness process — e.g. the row order of an array forged in memory — is then the same
+    // in the run and in the replay of one of its cases
+    let own = crate::cli::shim();
+    if own.is_some() {
+        std::env::set_var("VERIF_HASH_SEED", seed.to_string());
+    }
+    let own = own.as_deref();
     match id {
         "C19" => {
             // subject files are produced once so that every shard damages the same bytes
             let dir = crate::scratch::path("c19subjects");
             c19::prepare(tier, seed, &dir);
-            crate::explore::run_sharded(id, &dir, tier, seed, p.cap_s, p.shards, None)
+            crate::explore::run_sharded(id, &dir, tier, seed, p.cap_s, p.shards, own)
         }
         "C11" => {
-            let mut rep = crate::explore::run_sharded(id, "sweep", tier, seed, p.cap_s, p.shards, None);
+            let mut rep = crate::explore::run_sharded(id, "sweep", tier, seed, p.cap_s, p.shards, own);
             // schedule part under owned hash seeds
             let shim = crate::cli::shim();
             let nseeds = if tier.thorough() { 4 } else { 2 };
@@ -128,11 +136,11 @@ pub fn run_parent(id: &str, tier: Tier, seed: u64) -> Report {
             rep
         }
         "C18" => {
-            let mut rep = crate::explore::run_sharded(id, "", tier, seed, p.cap_s, p.shards, None);
+            let mut rep = crate::explore::run_sharded(id, "", tier, seed, p.cap_s, p.shards, own);
             c18::finish(&mut rep);
             rep
         }
-        _ => crate::explore::run_sharded(id, "", tier, seed, p.cap_s, p.shards, None),
+        _ => crate::explore::run_sharded(id, "", tier, seed, p.cap_s, p.shards, own),
     }
 }
 
